@@ -123,7 +123,7 @@ const POSITIONS: &[(&str, &str)] = &[
     ("method", "struct St0 { int mem0; int @() { return mem0; } };\nint fn0(St0 v) { return v.@(); }\n"),
     ("enum", "enum @ { EnV0 };\nint fn0() { return (int)@::EnV0; }\n"),
     ("enumvalue", "enum En0 { @ };\nint fn0() { return (int)En0::@; }\n"),
-    ("namespace", "namespace @ { static int gv0 = 1; }\nint fn0() { return @::gv0; }\n"),
+    ("namespace", "namespace @ { static int gv0 = 1; struct NsS0 { int nm0; }; int nsf0(int a) { return a; } }\nint fn0() { @::NsS0 s; s.nm0 = @::nsf0(2); return s.nm0 + @::gv0; }\n"),
     ("cbuffer", "cbuffer @ { int cbm0; }\nint fn0() { return cbm0; }\n"),
     ("cbuffermember", "cbuffer Cb0 { int @; }\nint fn0() { return @; }\n"),
     ("templateparam", "template<typename @> @ fn0(@ v) { return v; }\nint fn1() { return fn0<int>(1); }\n"),
